@@ -537,3 +537,112 @@ Fixpoint dec_run_lim (d : dec) (chunks : list bytes) (acc : list field) : dec * 
               if st =? 0 then dec_run_lim d' r (acc ++ fs) else (d', acc ++ fs, st)
   end.
 End Limited.
+
+(* ---------------- Decoder.SetEmitEnabled ----------------
+   The HTTP/2 framer re-enables emitting at the start of every header block and disables it from inside the emit
+   callback once the header list is too large.  This is modelled by an emit budget b: -1 = never disabled,
+   otherwise the number of fields still to be emitted before SetEmitEnabled(false); emit is enabled iff b <> 0.
+   With emit disabled parseFieldLiteral reads its strings with wantStr = it.indexed(): strings of literals that are
+   not added to the table are skipped (length checks only, no Huffman decoding), nothing is emitted, and the
+   dynamic table must evolve exactly as with emit enabled. *)
+Section Emit.
+Variable hd : bytes -> hres.
+Variable M : Z.
+
+(* readString(p, wantStr) *)
+Definition read_string_w (want : bool) (p : bytes) : rd bytes :=
+  if want then read_string_lim hd M p
+  else
+    match p with
+    | [] => RNeedMore
+    | _ :: _ =>
+      match read_varint 7 p with
+      | ROk len r =>
+        if too_long M len then RErr E_HUFFMAN
+        else if blen r <? len then RNeedMore
+        else ROk [] (skipn (Z.to_nat len) r)
+      | RNeedMore => RNeedMore
+      | RErr c => RErr c
+      | RPanic => RPanic
+      end
+    end.
+Definition parse_literal_e (emit : bool) (d : dyntab) (n : Z) (it : Z) (p : bytes) : rd (dyntab * option field) :=
+  let want := emit || (it =? 0) in
+  match read_varint n p with
+  | ROk nameIdx r =>
+    let name_r : rd bytes :=
+      if nameIdx >? 0 then
+        match dec_at d nameIdx with
+        | Some (nm, _) => ROk nm r
+        | None => RErr E_INDEX
+        end
+      else read_string_w want r in
+    match name_r with
+    | ROk nm r1 =>
+      match read_string_w want r1 with
+      | ROk v r2 =>
+        let hf := mkF nm v (it =? 2) in
+        if it =? 0 then
+          match dt_add d (mkF nm v false) with
+          | Some d' => ROk (d', Some hf) r2
+          | None => RPanic
+          end
+        else ROk (d, Some hf) r2
+      | RNeedMore => RNeedMore | RErr c => RErr c | RPanic => RPanic
+      end
+    | RNeedMore => RNeedMore | RErr c => RErr c | RPanic => RPanic
+    end
+  | RNeedMore => RNeedMore | RErr c => RErr c | RPanic => RPanic
+  end.
+Definition parse_repr_e (emit first : bool) (d : dyntab) (p : bytes) : rd (dyntab * option field) :=
+  match p with
+  | [] => RNeedMore
+  | b :: _ =>
+    if 128 <=? b then parse_indexed d p
+    else if 64 <=? b then parse_literal_e emit d 6 0 p
+    else if b <? 16 then parse_literal_e emit d 4 1 p
+    else if b <? 32 then parse_literal_e emit d 4 2 p
+    else parse_size_update first d p
+  end.
+Definition budget_next (b : Z) : Z := if b >? 0 then b - 1 else b.
+(* Write's loop: returns decoder state, remaining emit budget, emitted fields (reversed), status *)
+Fixpoint parse_loop_e (fuel : nat) (b : Z) (first : bool) (d : dyntab) (buf : bytes) (acc : list field)
+  : dec * Z * list field * Z :=
+  match buf with
+  | [] => (mkD d [] first, b, acc, 0)
+  | _ =>
+    match fuel with
+    | O => (mkD d [] first, b, acc, E_FUEL)
+    | S f =>
+      match parse_repr_e (negb (b =? 0)) first d buf with
+      | ROk (d', o) rest =>
+        match o with
+        | Some x =>
+          if too_long M (blen (fname x)) || too_long M (blen (fvalue x)) then (mkD d' [] false, b, acc, E_HUFFMAN)
+          else if b =? 0 then parse_loop_e f b false d' rest acc
+               else parse_loop_e f (budget_next b) false d' rest (x :: acc)
+        | None => parse_loop_e f b first d' rest acc
+        end
+      | RNeedMore =>
+        if negb (M =? 0) && (blen buf >? 2 * (M + 8)) then (mkD d [] first, b, acc, E_HUFFMAN)
+        else (mkD d buf first, b, acc, 0)
+      | RErr c => (mkD d [] first, b, acc, c)
+      | RPanic => (mkD d [] first, b, acc, ST_PANIC)
+      end
+    end
+  end.
+Definition dec_write_e (d : dec) (b : Z) (p : bytes) : dec * Z * list field * Z :=
+  match p with
+  | [] => (d, b, [], 0)
+  | _ => let buf := dsave d ++ p in
+         let '(d', b', acc, st) := parse_loop_e (S (length buf)) b (dfirst d) (ddt d) buf [] in (d', b', rev acc, st)
+  end.
+(* one header block: emit budget b, chunks until the first error, Close *)
+Fixpoint dec_run_e (d : dec) (b : Z) (chunks : list bytes) (acc : list field) : dec * list field * Z :=
+  match chunks with
+  | [] => let '(d', st) := dec_close d in (d', acc, st)
+  | c :: r => let '(d', b', fs, st) := dec_write_e d b c in
+              if st =? 0 then dec_run_e d' b' r (acc ++ fs) else (d', acc ++ fs, st)
+  end.
+End Emit.
+Definition take_b {A} (b : Z) (l : list A) : list A := if b <? 0 then l else firstn (Z.to_nat b) l.
